@@ -136,21 +136,7 @@ def r2(ctx, prog):
 
 def r3(ctx, prog):
     R = ctx.rule("C07.R3", "commit state is recorded only after the OS said yes, and undone when it said no")
-    f = prog.fn("mi_segment_commit")
-    cfg = f.cfg
-    ok_commit = lambda e, pol: isinstance(e, int) and pol and rl.is_call(f, f.strip(e), ("_mi_os_commit", "_mi_os_commit_ex"))
-    sets = [c for c in f.calls("mi_commit_mask_set") if f.mentions_field(rl.arg(f, c, 0), "commit_mask")]
-    ctx.check(R, len(sets) >= 1, f.where(), "mi_segment_commit records the new commit mask", key="C07.R3:commit:set")
-    for c in sets:
-        w = cfg.guarded(cfg.pt(c), ok_commit)
-        ctx.check(R, w is None, f.where(c), "commit_mask is extended only on the success edge of _mi_os_commit", key="C07.R3:commit:guard", witness=w)
-    hit = [q for p, q, e, pol in rl.edges_with_fact(f, lambda e, pol: isinstance(e, int) and (not pol) and rl.is_call(f, f.strip(e), ("_mi_os_commit", "_mi_os_commit_ex")))]
-    okf = bool(hit)
-    for q in hit:
-        for r in [cfg.elem_at(p) for p in cfg.reach([q]) if cfg.elem_at(p) is not None and f.nodes[cfg.elem_at(p)]["k"] == "ReturnStmt"]:
-            if f.cv(f.nodes[r].get("val", -1)) != 0:
-                okf = False
-    ctx.check(R, okf, f.where(), "a refused commit makes mi_segment_commit return false", key="C07.R3:commit:false")
+    shared.segment_commit_after_success(ctx, R, prog)
     g = prog.fn("mi_segment_span_allocate")
     for a, l, rhs, op in g.field_stores("is_committed"):
         if rhs is not None and g.cv(rhs) == 1:
